@@ -37,6 +37,37 @@ def _enumerations(fn) -> dict:
     return out
 
 
+def _zip_construction(fn):
+    """{k: dict(zip(C, row)) for k, row in zip(A, ARRAY)} / the same with an inner comprehension: verdicts like the
+    index form (rows of the array go with A, the entries of a row with C)"""
+    out = []
+    for n in ast.walk(fn):
+        if not (isinstance(n, ast.DictComp) and len(n.generators) == 1 and not n.generators[0].ifs):
+            continue
+        g = n.generators[0]
+        if not (isinstance(g.iter, ast.Call) and src(g.iter.func) == "zip" and len(g.iter.args) == 2 and isinstance(g.target, ast.Tuple) and len(g.target.elts) == 2 and all(isinstance(x, ast.Name) for x in g.target.elts)):
+            continue
+        a, b = g.iter.args
+        if "array" not in src(b).lower() or "array" in src(a).lower():
+            continue
+        k, row = (x.id for x in g.target.elts)
+        v = n.value
+        inner_c = None
+        if isinstance(v, ast.Call) and src(v.func) == "dict" and len(v.args) == 1 and isinstance(v.args[0], ast.Call) and src(v.args[0].func) == "zip" and len(v.args[0].args) == 2 and src(v.args[0].args[1]) == row:
+            inner_c = src(v.args[0].args[0])
+        elif isinstance(v, ast.DictComp) and len(v.generators) == 1 and isinstance(v.generators[0].iter, ast.Call) and src(v.generators[0].iter.func) == "zip" and len(v.generators[0].iter.args) == 2 and src(v.generators[0].iter.args[1]) == row \
+                and isinstance(v.generators[0].target, ast.Tuple) and len(v.generators[0].target.elts) == 2 and src(v.key) == src(v.generators[0].target.elts[0]) and src(v.value) == src(v.generators[0].target.elts[1]):
+            inner_c = src(v.generators[0].iter.args[0])
+        if inner_c is None or _role(src(a)) is None or _role(inner_c) is None:
+            continue
+        plain = isinstance(b, (ast.Name, ast.Attribute))  # the array itself: its first axis is the row axis
+        if not plain:
+            continue
+        good = src(n.key) == k and _role(src(a)) == "in" and _role(inner_c) == "out"
+        out.append((good, n, f"rows of {src(b)} paired with {src(a)}, row entries paired with {inner_c}, stored under [{src(n.key)}]"))
+    return out
+
+
 def _role(expr_text: str):
     t = expr_text.lower()
     if "input" in t and "output" not in t:
@@ -148,14 +179,32 @@ def check(ctx) -> Result:
         good = (ri, rj) == ("in", "out") and (k2, k1) == (si, sj)
         verdicts.append((good, s_, f"array[{i} over {enum[i][0]}, {j} over {enum[j][0]}] stored under [{k2}][{k1}]"))
     if not verdicts:
+        verdicts = _zip_construction(ini_fn)
+    if not verdicts:
         res.frozen(False, "M4-array-index-roles", "SimulationResult.__init__", ini.site(), ini.qualname, "", "construction of the nested dictionary from the array not recognised", construct="")
     else:
         okv = all(v[0] for v in verdicts)
         res.add(okv, "M4-array-index-roles", "SimulationResult.__init__", ini.site(verdicts[0][1]), ini.qualname, "nested[input][output] = array[i, j] with i over inputs and j over outputs",
                 "nested dictionary is not built as nested[input_i][output_j] = array[i, j]: " + "; ".join(v[2] for v in verdicts if not v[0]), construct=";".join(v[2] for v in verdicts)[:200])
-    chk = [n for n in walk_no_nested(ini.node) if isinstance(n, ast.If) and "shape[" in src(n.test)]
-    dims = {src(n.test).replace(" ", "") for n in chk}
-    res.add({"len(self.__inputs)!=self.__array.shape[0]", "len(self.__outputs)!=self.__array.shape[1]"} <= dims, "M4-array-index-roles", "SimulationResult.__init__:shape", ini.site(), ini.qualname, "rows = inputs, columns = outputs enforced", "array shape is not checked as (inputs, outputs)", construct=str(sorted(dims)))
+    # shape: len(inputs) against axis 0, len(outputs) against axis 1 (the comparison may sit in a helper)
+    fi_h = inlined(with_helpers(ctx, ini, only_private=False, depth=2, inline_locals=True).node)
+    seen_dims, any_shape = set(), False
+    for n in ast.walk(fi_h):
+        if isinstance(n, ast.Compare) and len(n.ops) == 1 and isinstance(n.ops[0], (ast.NotEq, ast.Eq, ast.Lt, ast.Gt)):
+            sides = [n.left, n.comparators[0]]
+            for a_, b_ in (sides, sides[::-1]):
+                if isinstance(a_, ast.Call) and src(a_.func) == "len" and a_.args and isinstance(b_, ast.Subscript) and isinstance(b_.value, ast.Attribute) and b_.value.attr == "shape" and isinstance(b_.slice, ast.Constant):
+                    any_shape = True
+                    if _role(src(a_.args[0])) is not None and "array" in src(b_.value.value).lower() or src(b_.value.value) in ("results",):
+                        seen_dims.add((_role(src(a_.args[0])), b_.slice.value))
+        elif isinstance(n, ast.Attribute) and n.attr == "shape":
+            any_shape = True
+    if {("in", 0), ("out", 1)} <= seen_dims and not ({("in", 1), ("out", 0)} & seen_dims):
+        res.ok("M4-array-index-roles", "SimulationResult.__init__:shape", ini.site(), ini.qualname, "rows = inputs, columns = outputs enforced")
+    elif ({("in", 1), ("out", 0)} & seen_dims) or not any_shape:
+        res.bad("M4-array-index-roles", "SimulationResult.__init__:shape", ini.site(), ini.qualname, "array shape is not checked as (inputs, outputs)", construct=str(sorted(seen_dims, key=str)))
+    else:
+        res.frozen(False, "M4-array-index-roles", "SimulationResult.__init__:shape", ini.site(), ini.qualname, "", f"shape comparison not recognised (found {sorted(seen_dims, key=str)})", construct=str(sorted(seen_dims, key=str)))
     # properties return the stored values
     for nm, fld in (("array", "self.__array"), ("inputs", "self.__inputs"), ("outputs", "self.__outputs")):
         g = SR.getters[nm]
